@@ -40,6 +40,28 @@ fn render_dec<T: Borrow<[u8]>>(res: &Result<Message<T>, Vec<DecodeError>>, rem: 
 
 type DecOut = Option<(Result<TMsg, Vec<DecodeError>>, usize)>;
 
+/// `n` zero octets, mapped lazily by the allocator (pages that are never touched cost nothing); None when the machine
+/// will not promise that much address space — the case is then not applicable here, not a failure of the crate
+fn zeroed(n: usize) -> Option<Vec<u8>> {
+    zeroed_with_room(n, 0)
+}
+
+/// … with `room` more octets of capacity behind them, so that appending does not reallocate
+fn zeroed_with_room(n: usize, room: usize) -> Option<Vec<u8>> {
+    if n + room == 0 {
+        return Some(vec![]);
+    }
+    let layout = std::alloc::Layout::from_size_align(n + room, 1).ok()?;
+    unsafe {
+        let p = std::alloc::alloc_zeroed(layout);
+        if p.is_null() {
+            None
+        } else {
+            Some(Vec::from_raw_parts(p, n, n + room))
+        }
+    }
+}
+
 fn dec_slice_raw(b: &[u8], o: &ValidationOptions) -> DecOut {
     guard(|| {
         let mut r = SliceReader::from(b);
@@ -1187,9 +1209,13 @@ fn run(f: &[&str]) -> Option<String> {
                 (_, Some(a)) => enc_avp_into(&[], a).data,
                 _ => None,
             };
+            let mut big = match zeroed_with_room(size, 1 << 20) {
+                Some(v) => Some(v),
+                None => return Some("n/a".to_string()),
+            };
             let got = guard(|| {
                 let mut w = VecWriter::new();
-                w.data = vec![0u8; size];
+                w.data = big.take().unwrap_or_default();
                 if let Some(m) = &msg {
                     m.write(&mut w);
                 }
@@ -1228,7 +1254,10 @@ fn run(f: &[&str]) -> Option<String> {
             match &a {
                 Some((Ok(m), rem)) if has_declared_len(m) => {
                     let consumed = b.len() - rem;
-                    let mut buf = vec![0u8; size];
+                    let mut buf = match zeroed(size) {
+                        Some(v) => v,
+                        None => return Some("n/a".to_string()),
+                    };
                     buf[..consumed].copy_from_slice(&b[..consumed]);
                     let r2 = dec_slice_raw(&buf, &o);
                     let mut v = vec![];
@@ -1249,7 +1278,10 @@ fn run(f: &[&str]) -> Option<String> {
             if size < b.len() || size > (1usize << 34) {
                 return None;
             }
-            let mut buf = vec![0u8; size];
+            let mut buf = match zeroed(size) {
+                Some(v) => v,
+                None => return Some("n/a".to_string()),
+            };
             buf[..b.len()].copy_from_slice(&b);
             let o = ValidationOptions { reserved: ValidateReserved::No, version: ValidateVersion::Yes, unused: ValidateUnused::No };
             guard(|| {
@@ -1268,7 +1300,10 @@ fn run(f: &[&str]) -> Option<String> {
             if size < 16 || size > (1usize << 34) {
                 return None;
             }
-            let mut buf = vec![0u8; size];
+            let mut buf = match zeroed(size) {
+                Some(v) => v,
+                None => return Some("n/a".to_string()),
+            };
             for i in 0..8 {
                 buf[i] = 0xa0 + i as u8;
                 buf[size - 8 + i] = 0xb0 + i as u8;
